@@ -208,7 +208,8 @@ def check(run, replay):
         idx = sorted(rng.sample(range(len(src_keys)), 320))
         # always keep the find* patterns and the few with quotes
         idx = sorted(set(idx) | {i for i, k in enumerate(src_keys) if k[0].startswith("find") or "\\" in k[1]})
-        # patterns with a literal whose tabulated type real tokens are known to escape
+        # patterns with a name literal whose tokType is not a function of the string (fixed by /repo 29e7f6a:
+        # no identifier-like key in tokTypes; these keep the regression visible in the quick tier)
         for hot in ("void", "auto", "true", "false", "restrict"):
             have = [i for i, k in enumerate(src_keys) if hot in [a for w in k[1].split(" ") for a in w.split("|")]]
             idx = sorted(set(idx) | set(have[:6]))
@@ -490,7 +491,7 @@ def report_opt_tail(run, reported, f, window, ii, ic, pos, meta_):
     if key in reported:
         return
     reported.add(key)
-    run.violation(key, "compiled != interpreted when the tokens end before an optional word: pattern %r, %d token(s) left: interpreter %s, compiled %s (documentation: 'or no token')"
+    run.violation(key, "compiled != interpreted when the tokens end before an optional word (regression of /repo 5f182d0?): pattern %r, %d token(s) left: interpreter %s, compiled %s (documentation: 'or no token')"
                   % (f[3], len(window), ii[pos] if pos < len(ii) else ii, ic[pos] if pos < len(ic) else ic),
                   {"pattern": vlib.show(f[3]), "src": meta_.get("src"), "tokens": vlib.show(window), "interpreted": ii, "compiled": ic, "position": pos,
                    "how": "echo <case_line> | build/harness/vh_c33 scan", "case_line": vlib.enc_case(f)})
